@@ -26,7 +26,7 @@ ASSUMPTIONS = ['formulas come from a total sub-grammar (+, *, SUM, IF, MAX, comp
 
 L = wbk.get_column_letter
 FORMULAS = ['=A1+B1', '=A1*2+1', '=SUM(A1:B3)', '=IF(A1>2,B1,A2)', '=MAX(A1:C2)', '=A1>B1', '=B2', '=SUM(A1:A3)*2', "='{o}'!A1+1", "=SUM('{o}'!A1:B2)",
-            '={p}+1', '={p}*{p}', '=C9', '=COUNT(A1:C3)']
+            '={p}+1', '={p}*{p}', '=C9', '=COUNT(A1:C3)', '=1/0', '=IFERROR(1/0,7)', '=IFERROR({p}/0,{p})', '={p}/0']
 
 
 def wb_model(wb):
@@ -198,6 +198,12 @@ def replay(history, counter=None):
             got = wbk.outcome(lambda: ex.get_cell(cell).value)
             if not check(k, got, n, 'get_cell'):
                 return fails
+        elif op == 'hammer':
+            k = st['k']
+            for i in range(st['n']):
+                got = wbk.outcome(lambda: ex.get_cell(mk(wb, k, 'num')).value)
+                if not check(k, got, n, 'hammer'):
+                    return fails
         elif op == 'get_cells':
             cells = [mk(wb, k, a) for k, a in st['ks']]
             got = wbk.outcome(lambda: [c.value for c in ex.get_cells(cells)])
@@ -317,7 +323,7 @@ def build_machine(rec):
             homes = []
             for i in range(data.draw(st.integers(2, 8))):
                 si = data.draw(st.integers(0, n - 1))
-                home = (si, data.draw(st.sampled_from([5, 6, 8])), 1 + len([h for h in homes if h[0] == si]))
+                home = (si, data.draw(st.sampled_from([5, 6, 8, 27, 28, 53])), 1 + len([h for h in homes if h[0] == si]))
                 f = data.draw(st.sampled_from(FORMULAS))
                 other = titles[(si + 1) % n]
                 prevs = [h for h in homes if h[0] == si]
@@ -365,6 +371,12 @@ def build_machine(rec):
         @rule(si=st.integers(0, 2), by=st.sampled_from(['index', 'title']))
         def get_sheet(self, si, by):
             self.h['steps'].append({'op': 'get_sheet', 'si': si, 'by': by})
+
+        @precondition(lambda self: self.h is not None)
+        @rule(data=st.data(), n=st.sampled_from([40, 120, 350]))
+        def hammer(self, data, n):
+            # the same cell many times in a row (a value must not wear out)
+            self.h['steps'].append({'op': 'hammer', 'k': self._key(data), 'n': n})
 
         @precondition(lambda self: self.h is not None)
         @rule(data=st.data(), a=addr)
